@@ -16,10 +16,9 @@
 (*   process death                           Kill                             *)
 (*   setup_config + REPEX_state + load_paths Restart                          *)
 (***************************************************************************)
-EXTENDS Integers, Sequences, FiniteSets, TLC, Rat, PermOps
+EXTENDS InfretisOps
 
-CONSTANTS N,           \* ensembles 0..N-1 : 0 = [0-], 1 = [0+], 2 = [1+], ...
-          Workers,     \* 1..N-1
+CONSTANTS Workers,     \* 1..N-1
           Steps,       \* steps requested for the first run
           MoreSteps,   \* steps added when a finished run is restarted
           MaxPn,       \* largest path number that may be issued (bounds the model)
@@ -32,11 +31,8 @@ CONSTANTS N,           \* ensembles 0..N-1 : 0 = [0-], 1 = [0+], 2 = [1+], ...
           LiteralOrd,  \* BOOLEAN  Layer I stream ordinals (as implemented) instead of Layer R
           VaryInit     \* BOOLEAN  start from every valid set of loaded paths, not only the canonical one
 
-Ens   == 0..(N-1)
-Plus  == 1..(N-1)
 Pins  == 0..(Workers-1)
 Pn    == 0..MaxPn
-None  == -1
 NoJob == [ens |-> <<>>, pns |-> <<>>, ord |-> None]
 NoRec == [cstep |-> None]
 
@@ -68,22 +64,15 @@ vars == <<slot, wt, lock, jobs, lockedSeq, locked0, cstep, tsteps, trajnum, star
 
 ---------------------------------------------------------------------------
 WM(sl, w)     == [i \in Ens |-> w[sl[i]]]                  \* weight matrix, rows by slot
-IdleOf(lk)    == Ens \ lk
 SetToSeqOrd(S) == LET RECURSIVE F(_)
                       F(T) == IF T = {} THEN <<>> ELSE
                               LET m == CHOOSE x \in T : \A y \in T : x <= y IN <<m>> \o F(T \ {m})
                   IN F(S)
-SeqSet(s)     == {s[k] : k \in 1..Len(s)}
-Swap(sl, i, e) == [sl EXCEPT ![e] = sl[i], ![i] = sl[e]]
 EngCount(t)   == LET need == Cardinality({e \in Ens : t \in EngNeed[e]}) IN
                  IF need < Workers THEN need ELSE Workers
 
-(* the support of the exact P: cells with weight whose minor still has a matching *)
-Support(sl, lk, w) ==
-  {c \in IdleOf(lk) \X IdleOf(lk) :
-     /\ w[sl[c[1]]][c[2]] > 0
-     /\ Matchable(WM(sl, w), IdleOf(lk) \ {c[1]}, IdleOf(lk) \ {c[2]})}
-CanDrawIn(sl, lk, w) == Matchable(WM(sl, w), IdleOf(lk), IdleOf(lk))
+Support(sl, lk, w)   == SupportM(WM(sl, w), lk)
+CanDrawIn(sl, lk, w) == CanDrawM(WM(sl, w), lk)
 
 MinusRow    == [j \in Ens |-> IF j = 0 THEN 1 ELSE 0]
 PlusRows(e) == {r \in [Ens -> {0} \cup WSet] :
@@ -198,18 +187,12 @@ LoopPick(pin) ==
 ---------------------------------------------------------------------------
 (* arrangements the re-sorting may produce: busy slots untouched, every idle *)
 (* slot ends up with a path that has weight there                            *)
-Perms == {p \in [Ens -> Ens] : \A a, b \in Ens : a # b => p[a] # p[b]}
 Arrangements(sl, lk, w) ==
   {t \in {[x \in Ens |-> sl[p[x]]] : p \in {q \in Perms : \A x \in lk : q[x] = x}} :
       \A x \in IdleOf(lk) : w[t[x]][x] > 0}
 
-RemoveFirst(s, v) == LET k == CHOOSE x \in 1..Len(s) : s[x] = v
-                     IN SubSeq(s, 1, k - 1) \o SubSeq(s, k + 1, Len(s))
-
-PNumOf(sl, lk, w) == [i \in Ens |-> [e \in Ens |->
-     IF i \in lk \/ e \in lk \/ w[sl[i]][e] = 0 THEN 0
-     ELSE w[sl[i]][e] * PermRC(WM(sl, w), IdleOf(lk) \ {i}, IdleOf(lk) \ {e})]]
-PDenOf(sl, lk, w) == PermRC(WM(sl, w), IdleOf(lk), IdleOf(lk))
+PNumOf(sl, lk, w) == PNumM(WM(sl, w), lk)
+PDenOf(sl, lk, w) == PDenM(WM(sl, w), lk)
 
 RecordOf(sl, lseq, jb, cs, tn, fr, on) ==
   [cstep |-> cs, trajnum |-> tn, active |-> [e \in Ens |-> sl[e]],
@@ -364,6 +347,22 @@ NoLostJob    == (phase = "loop" /\ pend = None /\ cstep < tsteps) => InFlightPin
 (* C07 *)
 OrdinalsFresh == \A p \in InFlightPins : jobs[p].ord \in DOMAIN usedOrd /\ usedOrd[jobs[p].ord] = Sig(jobs[p])
 OrdinalsDistinct == \A a, b \in InFlightPins : a # b => jobs[a].ord # jobs[b].ord
+
+(* C06: restarting a cleanly finished run changes nothing the future depends on, *)
+(* and the jobs re-issued are exactly the recorded ones, in order                *)
+RestartIsStutter ==
+  [][(phase = "done" /\ phase' = "init") =>
+        /\ slot' = slot /\ cstep' = cstep /\ trajnum' = trajnum /\ frac' = frac /\ wt' = wt
+        /\ lock' = {} /\ ordn' = ordn]_vars
+RestartRestoresRecord ==
+  [][(phase \in {"done", "dead"} /\ phase' = "init") =>
+        /\ slot' = rfile.active /\ cstep' = rfile.cstep /\ trajnum' = rfile.trajnum
+        /\ frac' = rfile.frac /\ locked0' = rfile.locked]_vars
+ReissueExact ==
+  [][\A p \in Pins : (phase = "init" /\ locked0 # <<>> /\ jobs[p] = NoJob /\ jobs'[p] # NoJob) =>
+        /\ <<jobs'[p].ens, jobs'[p].pns>> = Head(locked0) /\ locked0' = Tail(locked0)]_vars
+NoFreeDrawBeforeReissue ==
+  [][\A p \in Pins : (phase = "init" /\ jobs[p] = NoJob /\ jobs'[p] # NoJob /\ locked0' = locked0) => locked0 = <<>>]_vars
 
 (* C04 *)
 RECURSIVE SumRows(_, _)
